@@ -1,0 +1,8 @@
+//go:build verif
+
+package cmap
+
+// Only compiled with the build tag "verif": access for the verification
+// harness, no behaviour of its own.
+
+func VerifTrNextString(s string, inc int) string { return nextString(s, inc) }
